@@ -1294,6 +1294,11 @@ def rays(
       ],
       block_dim=m.block_dim.ray,
     )
+  elif rc.bvh_ngeom + rc.bvh_nflexgeom == 0:
+    # no geom in the render context's groups: nothing can be hit (an empty scene BVH cannot be queried)
+    dist.fill_(-1.0)
+    geomid.fill_(-1)
+    normal.zero_()
   else:
     wp.launch(
       _ray_bvh,
